@@ -1196,4 +1196,167 @@ Proof.
   now apply eval_generalized_is_segmented.
 Qed.
 
+
+(* ------------------------------------------------------------------ *)
+(* the laws on the bare double sum (used by the Boys-type kernels)      *)
+(* ------------------------------------------------------------------ *)
+Section DS.
+Variables (h : F -> F -> F) (wa wb : F -> F).
+Notation D := (dsum h wa wb).
+
+Lemma dsum_col ea Ca eb Cb ma mb :
+  D (combine ea (col_rows ma 0 Ca)) (combine eb (col_rows mb 0 Cb)) 0 0 = D (combine ea Ca) (combine eb Cb) ma mb.
+Proof. unfold dsum. rewrite ssum_col. apply ssum_ext. intros beta. f_equal. apply ssum_col. Qed.
+
+Lemma dsum_perm pa pa' pb pb' ma mb : Permutation pa pa' -> Permutation pb pb' ->
+  D pa' pb' ma mb = D pa pb ma mb.
+Proof.
+  intros Ha Hb. unfold dsum. rewrite <- (ssum_perm _ _ _ mb Hb). apply ssum_ext. intros beta. f_equal.
+  symmetry. apply (ssum_perm _ _ _ ma Ha).
+Qed.
+
+Lemma dsum_split_a l1 l2 a r r1 r2 pb ma mb : r = map2 (fadd K) r1 r2 -> length r1 = length r2 ->
+  D (l1 ++ (a, r1) :: (a, r2) :: l2) pb ma mb = D (l1 ++ (a, r) :: l2) pb ma mb.
+Proof.
+  intros Hr Hl. unfold dsum. apply ssum_ext. intros beta. f_equal. apply ssum_split. subst r. now apply nth_map2_add.
+Qed.
+
+Lemma dsum_split_b pa l1 l2 a r r1 r2 ma mb : r = map2 (fadd K) r1 r2 -> length r1 = length r2 ->
+  D pa (l1 ++ (a, r1) :: (a, r2) :: l2) ma mb = D pa (l1 ++ (a, r) :: l2) ma mb.
+Proof. intros Hr Hl. unfold dsum. apply ssum_split. subst r. now apply nth_map2_add. Qed.
+
+Lemma dsum_add_a ea C1 C2 pb ma mb : same_shape C1 C2 ->
+  D (combine ea (rows_add C1 C2)) pb ma mb = D (combine ea C1) pb ma mb + D (combine ea C2) pb ma mb.
+Proof.
+  intros H. unfold dsum. unfold ssum at 1 3 5. rewrite <- fsum_map_add. apply fsum_map_ext. intros [beta rb].
+  cbn [fst snd]. rewrite (ssum_add _ _ _ _ _ H). ring.
+Qed.
+
+Lemma dsum_scale_a ea k C pb ma mb : D (combine ea (rows_scale k C)) pb ma mb = k * D (combine ea C) pb ma mb.
+Proof.
+  unfold dsum. unfold ssum at 1 3. rewrite <- fsum_map_scale. apply fsum_map_ext. intros [beta rb].
+  cbn [fst snd]. rewrite ssum_scale. ring.
+Qed.
+
+Lemma dsum_add_b pa eb C1 C2 ma mb : same_shape C1 C2 ->
+  D pa (combine eb (rows_add C1 C2)) ma mb = D pa (combine eb C1) ma mb + D pa (combine eb C2) ma mb.
+Proof. intros H. unfold dsum. now apply ssum_add. Qed.
+
+Lemma dsum_scale_b pa eb k C ma mb : D pa (combine eb (rows_scale k C)) ma mb = k * D pa (combine eb C) ma mb.
+Proof. unfold dsum. apply ssum_scale. Qed.
+End DS.
+
+(* ------------------------------------------------------------------ *)
+(* point-charge / nuclear-attraction kernel (_one_elec_int.py)          *)
+(* ------------------------------------------------------------------ *)
+(* the model with the number of columns and the contracted [a|0] cube abstracted; it reads only
+   the frames (l, centre, component lists) of the shells *)
+Definition one_elec_point_gen (Ma Mb : nat) (ctr : nat -> nat -> nat -> nat -> nat -> F)
+           (sa sb : shell F) : list (list (list (list F))) :=
+  let la := s_l sa in let lb := s_l sb in let L := (la + lb)%nat in
+  let abx := s_x sa - s_x sb in let aby := s_y sa - s_y sb in let abz := s_z sa - s_z sb in
+  let nca := map (inv_sqrt_df K) (comps_of sa) in
+  let ncb := map (inv_sqrt_df K) (comps_of sb) in
+  mk Ma (fun ma => map (fun '(ca, fa) =>
+    mk Mb (fun mb => map (fun '(cb, fb) =>
+      let '(ax, ay, az) := ca in let '(bx, by_, bz) := cb in
+      let h := hrr K L lb abx aby abz
+                 (mk (S L) (fun x => mk (S L) (fun y => mk (S L) (fun z => ctr ma mb x y z)))) in
+      cget K (nth bz (nth by_ (nth bx h []) []) []) ax ay az * fa * fb)
+      (combine (comps_of sb) ncb))) (combine (comps_of sa) nca)).
+
+Definition oe_ctr (Cx Cy Cz : F) (sa sb : shell F) (pa pb : list (@prim F)) (ma mb x y z : nat) : F :=
+  dsum (fun alpha beta => cget K (vrr_prim K (s_l sa + s_l sb) (s_x sa) (s_y sa) (s_z sa)
+                                          (s_x sb) (s_y sb) (s_z sb) Cx Cy Cz alpha beta) x y z)
+       (norm_rad K (s_l sa)) (norm_rad K (s_l sb)) pa pb ma mb.
+
+Lemma one_elec_point_form Cx Cy Cz sa sb :
+  one_elec_point K Cx Cy Cz sa sb
+  = one_elec_point_gen (nseg sa) (nseg sb) (oe_ctr Cx Cy Cz sa sb (prims sa) (prims sb)) sa sb.
+Proof.
+  unfold one_elec_point, one_elec_point_gen. cbv zeta. apply mk_ext. intros ma Hma.
+  apply map_ext. intros [ca fa]. apply mk_ext. intros mb Hmb. apply map_ext. intros [cb fb].
+  destruct ca as [[ax ay] az]. destruct cb as [[bx by_] bz].
+  rewrite nth_mk by exact Hma. rewrite nth_mk by exact Hmb.
+  do 7 f_equal.
+  apply mk_ext. intros x _. apply mk_ext. intros y _. apply mk_ext. intros z _.
+  unfold oe_ctr, dsum, ssum, prims.
+  rewrite (combine3_map' (fun beta => map (fun alpha => vrr_prim K (s_l sa + s_l sb) (s_x sa) (s_y sa) (s_z sa)
+                            (s_x sb) (s_y sb) (s_z sb) Cx Cy Cz alpha beta) (s_exps sa)) (norm_rad K (s_l sb))).
+  rewrite map_map. apply fsum_map_ext. intros [beta rb]. cbn [fst snd].
+  rewrite (combine3_map' (fun alpha => vrr_prim K (s_l sa + s_l sb) (s_x sa) (s_y sa) (s_z sa)
+                            (s_x sb) (s_y sb) (s_z sb) Cx Cy Cz alpha beta) (norm_rad K (s_l sa))).
+  rewrite map_map. reflexivity.
+Qed.
+
+Lemma one_elec_point_gen_ext Ma Mb ctr ctr' sa sb :
+  (forall ma mb x y z, ma < Ma -> mb < Mb -> ctr ma mb x y z = ctr' ma mb x y z) ->
+  one_elec_point_gen Ma Mb ctr sa sb = one_elec_point_gen Ma Mb ctr' sa sb.
+Proof.
+  intros H. unfold one_elec_point_gen. cbv zeta. apply mk_ext. intros ma Hma.
+  apply map_ext. intros [ca fa]. apply mk_ext. intros mb Hmb. apply map_ext. intros [cb fb].
+  destruct ca as [[ax ay] az]. destruct cb as [[bx by_] bz].
+  do 7 f_equal.
+  apply mk_ext. intros x _. apply mk_ext. intros y _. apply mk_ext. intros z _. now apply H.
+Qed.
+
+Section OE.
+Variables Cx Cy Cz : F.
+Notation OE := (one_elec_point K Cx Cy Cz).
+
+Theorem oe_prim_perm_invariant sa sb psa psb :
+  Permutation (prims sa) psa -> Permutation (prims sb) psb ->
+  nseg (set_prims sa psa) = nseg sa -> nseg (set_prims sb psb) = nseg sb ->
+  OE (set_prims sa psa) (set_prims sb psb) = OE sa sb.
+Proof.
+  intros Ha Hb Na Nb. rewrite !one_elec_point_form, Na, Nb, !prims_set_prims.
+  change (one_elec_point_gen ?a ?b ?c (set_prims sa psa) (set_prims sb psb)) with (one_elec_point_gen a b c sa sb).
+  apply one_elec_point_gen_ext. intros. unfold oe_ctr.
+  change (s_l (set_prims ?s ?p)) with (s_l s). change (s_x (set_prims ?s ?p)) with (s_x s).
+  change (s_y (set_prims ?s ?p)) with (s_y s). change (s_z (set_prims ?s ?p)) with (s_z s).
+  now apply dsum_perm.
+Qed.
+
+Theorem oe_prim_split_a sa sb l1 l2 a r r1 r2 :
+  prims sa = l1 ++ (a, r) :: l2 -> r = map2 (fadd K) r1 r2 -> length r1 = length r2 ->
+  OE (set_prims sa (l1 ++ (a, r1) :: (a, r2) :: l2)) sb = OE sa sb.
+Proof.
+  intros Hp Hr Hl. rewrite !one_elec_point_form, (nseg_split sa l1 l2 a r r1 r2 Hp Hr Hl), !prims_set_prims.
+  change (one_elec_point_gen ?a ?b ?c (set_prims sa ?p) sb) with (one_elec_point_gen a b c sa sb).
+  apply one_elec_point_gen_ext. intros. unfold oe_ctr.
+  change (s_l (set_prims ?s ?p)) with (s_l s). change (s_x (set_prims ?s ?p)) with (s_x s).
+  change (s_y (set_prims ?s ?p)) with (s_y s). change (s_z (set_prims ?s ?p)) with (s_z s).
+  rewrite Hp. now apply dsum_split_a.
+Qed.
+
+Theorem oe_prim_split_b sa sb l1 l2 a r r1 r2 :
+  prims sb = l1 ++ (a, r) :: l2 -> r = map2 (fadd K) r1 r2 -> length r1 = length r2 ->
+  OE sa (set_prims sb (l1 ++ (a, r1) :: (a, r2) :: l2)) = OE sa sb.
+Proof.
+  intros Hp Hr Hl. rewrite !one_elec_point_form, (nseg_split sb l1 l2 a r r1 r2 Hp Hr Hl), !prims_set_prims.
+  change (one_elec_point_gen ?a ?b ?c sa (set_prims sb ?p)) with (one_elec_point_gen a b c sa sb).
+  apply one_elec_point_gen_ext. intros. unfold oe_ctr.
+  change (s_l (set_prims ?s ?p)) with (s_l s). change (s_x (set_prims ?s ?p)) with (s_x s).
+  change (s_y (set_prims ?s ?p)) with (s_y s). change (s_z (set_prims ?s ?p)) with (s_z s).
+  rewrite Hp. now apply dsum_split_b.
+Qed.
+
+(* 1. generalized = segmented: the block of the single-column shells is the (ma, mb) slice *)
+Theorem oe_generalized_is_segmented sa sb ma mb : ma < nseg sa -> mb < nseg sb ->
+  OE (col_shell sa ma) (col_shell sb mb)
+  = [map (fun b2 => [nth mb b2 []]) (nth ma (OE sa sb) [])].
+Proof.
+  intros Hma Hmb. rewrite !one_elec_point_form, (nseg_col_shell sa ma Hma), (nseg_col_shell sb mb Hmb).
+  change (one_elec_point_gen ?a ?b ?c (col_shell sa ma) (col_shell sb mb)) with (one_elec_point_gen a b c sa sb).
+  unfold one_elec_point_gen. cbv zeta. rewrite mk1. rewrite nth_mk by exact Hma. f_equal.
+  rewrite map_map. apply map_ext. intros [ca fa]. rewrite mk1. rewrite nth_mk by exact Hmb. f_equal.
+  apply map_ext. intros [cb fb]. destruct ca as [[ax ay] az]. destruct cb as [[bx by_] bz].
+  do 7 f_equal.
+  apply mk_ext. intros x _. apply mk_ext. intros y _. apply mk_ext. intros z _.
+  unfold oe_ctr. change (s_l (col_shell ?s ?m)) with (s_l s). change (s_x (col_shell ?s ?m)) with (s_x s).
+  change (s_y (col_shell ?s ?m)) with (s_y s). change (s_z (col_shell ?s ?m)) with (s_z s).
+  apply dsum_col.
+Qed.
+End OE.
+
 End P.
